@@ -14,7 +14,7 @@ RULE = ("one process per run under ThreadSanitizer: the real asynchronous Log (g
         "producers joined the logger is destroyed. Offline checker: every line reaches the sink at most once and intact, lines of one thread "
         "in increasing order, every missing line is accounted for by the `N messages dropped` notices (sum N == number missing), nothing "
         "accepted is missing after ~Log returned, the lower bound sum(size of lines accepted but not yet handed to the sink) never exceeds "
-        "1 MiB, silencing affects only the calling thread and never the kmsg record; zero ThreadSanitizer reports. "
+        "1 MiB (single lines larger than the whole budget included: dropped and counted), silencing affects only the calling thread and never the kmsg record; zero ThreadSanitizer reports. "
         "non-trivial = >=2 producers and (>=1 gate engaged or >=1 drop notice); distinct by scenario hash")
 ASSUMPTIONS = ["'accepted' is observed as: the logging call returned; 'written' as: the sink's xsputn for that line started (one global sequence counter)",
                "backlog is measured as a lower bound; the sink gate is released on logical progress, wall-clock only bounds the whole run"]
